@@ -374,6 +374,7 @@ func c18Lockstep(c *Ctx, l *lib.Lean, ops []string, caseName string) (int, error
 			gaveUp = true
 			r.mu.Unlock()
 			r.cm.Disconnect(uint64(g.serial))
+			time.Sleep(2 * time.Millisecond) // let connHandler mark the request cancelled before it is released
 			r.mu.Lock()
 		default:
 			r.mu.Unlock()
